@@ -367,7 +367,9 @@ func AcceptSyncReply(body []byte, serverKey, deviceKey, gcaKey [32]byte, now int
 	if int64(r.Timestamp) < 0 || d > 24*3600 || d < -24*3600 {
 		return r, "timestamp out of range"
 	}
-	if !verify(serverKey, r.Body(), r.Sig) {
+	// the signature covers the bytes as received, not a re-encoding (a reply
+	// whose ban flag byte is 3 decodes like one with 1 but is a different message)
+	if !verify(serverKey, body[:len(body)-64], r.Sig) {
 		return r, "server signature invalid"
 	}
 	if r.DeviceKey != deviceKey {
